@@ -22,6 +22,13 @@ PROPS = {
         "level_note": "Trusted: Coq kernel + vm_compute, gengallina translator, the Go harness, oracles for float64 parse/format on the REST leg (REST theorems are _partial). Theorems are about the model; correspondence is sampled (exhaustive over small values, every unit byte, digit-count boundaries).",
         "modelled": "grpcExtractTimeoutFromHeaders, grpcDecodeTimeout, grpcEncodeTimeout, connectExtractTimeout, connectEncodeTimeout, restEncodeTimeout/restDecodeTimeout (float part as oracle); grpcTimeoutUnitLookup and digit limits regenerated from source",
     },
+    "C04": {
+        "theorems": ["C04_status_total", "C04_http_to_rpc", "C04_grpc_message_roundtrip", "C04_grpc_message_printable"],
+        "suites": [{"name": "status", "quick": 1, "thorough": 1}, {"name": "percent", "quick": 300, "thorough": 20000}],
+        "required_tags": ["status.from_rpc:small", "status.from_rpc:large", "status.to_rpc:sweep", "percent.grpc_decode:pairs", "percent.grpc_encode:single"],
+        "trivial_tags": ["empty"],
+        "level_text": "wip", "level_note": "wip",
+    },
 }
 
 NOT_APPLICABLE = {}
